@@ -8,3 +8,4 @@ pub mod fv_font;
 pub mod woff2;
 pub mod glyfgen;
 pub mod ttgen;
+pub mod gvar;
